@@ -301,6 +301,13 @@ def flavours(tier="quick"):
         suite=CS.TLS_AES_256_GCM_SHA384)
     add("TLS1.3-PSK", version=(3, 4), flavour="psk",
         suite=CS.TLS_AES_128_GCM_SHA256)
+    # flights fragmented into many small records (both directions)
+    add("TLS1.3-RSA-clientauth-rsl64", version=(3, 4), req_cert=True,
+        client_cred="c_rsa", suite=CS.TLS_AES_128_GCM_SHA256,
+        cset={"record_size_limit": 64}, sset={"record_size_limit": 64})
+    add("TLS1.2-ECDHE_RSA-rsl64", version=(3, 3),
+        suite=CS.TLS_ECDHE_RSA_WITH_AES_128_GCM_SHA256,
+        cset={"record_size_limit": 64}, sset={"record_size_limit": 64})
     add("TLS1.3-FFDHE", version=(3, 4), suite=CS.TLS_AES_128_GCM_SHA256,
         cset={"keyShares": ["ffdhe2048"], "eccCurves": [],
               "dhGroups": ["ffdhe2048"]})
